@@ -4537,13 +4537,22 @@ func (r *RoutingPolicy) AddPolicy(x *Policy, refer bool) (err error) {
 	name := x.Name
 	y, ok := pMap[name]
 	if refer {
-		err = x.FillUp(sMap)
+		// a request naming an unknown statement is refused as a whole
+		if err = x.FillUp(sMap); err != nil {
+			return err
+		}
 	} else {
+		// check every name before the first statement is stored: a refused
+		// request must not leave some of its statements behind
+		seen := make(map[string]bool, len(x.Statements))
 		for _, st := range x.Statements {
-			if _, ok := sMap[st.Name]; ok {
+			if _, ok := sMap[st.Name]; ok || seen[st.Name] {
 				err = fmt.Errorf("statement %s already defined", st.Name)
 				return err
 			}
+			seen[st.Name] = true
+		}
+		for _, st := range x.Statements {
 			sMap[st.Name] = st
 		}
 	}
